@@ -25,6 +25,24 @@ QSBR_NOTE = ('Trusted: Coq 8.16.1 kernel, no axioms; theorems are about the coar
              'quiescent()/qsbr_pause().')
 
 claimed = {
+    'C08': ('proof', 'Coq theorems over the allocate-then-commit fault model: an insert / remove failing at any of its allocation points '
+            'returns the untouched index and the retry gives the normal result; an operation has at most two allocation points, none when '
+            'it is a no-op. The model\'s number of allocation points per operation is compared with the implementation, on which the '
+            'guarantee itself is enumerated exhaustively: every allocation point of every insert/remove of the C01 histories is failed '
+            'once with the library\'s own injector (assertion-enabled build) on db, mutex_db, olc_db and both key kinds, comparing dump, '
+            'statistics, scan and the live allocation set; plus over-long key/value probes and QSBR start / resume / request failures.',
+            '5 C08', 'Trusted: Coq 8.16.1 kernel, no axioms; the model assumes what the enumeration checks on the code (all allocations of an '
+            'operation precede its first change); library injector semantics; OLC with a single registered thread; hooks for the live '
+            'allocation set.', 'Coq proof over a fault model + exhaustive fault enumeration on the implementation + allocation-count correspondence'),
+    'C16': ('proof', 'Coq theorems: the SIMD child search / insert position / free-slot variants (modelled at mask and lane-group level) equal '
+            'the list-level functions of the model, and the model\'s results do not depend on the statistics component. Tie '
+            '(translation validation across builds): harness/seq_diff.cpp is built in all 16 configurations {AVX2,SSE4.1} x {stats, no '
+            'stats} x {assertions, NDEBUG} x {PAUSE, EMPTY}; each runs the same C01/C02 histories on the three index classes and both key '
+            'kinds (including scans followed by removals on the OLC index) and is diffed line by line against the extracted model; '
+            'assertion-enabled builds must exit 0. Memory use is compared with the node sizes of the respective build.', '5 C16',
+            'Trusted: Coq 8.16.1 kernel, no axioms; intrinsics by their lane-level meaning; g++ -O1; assertions on the concurrent paths are '
+            'exercised by the C03/C09/C14 explorations, not here; the read_lock_count theorem of DESIGN (C16_rlc) is not proved.',
+            'Coq proof (variant equivalence, statistics are observers) + 16-configuration differential run against the extracted model'),
     'C05': ('proof', 'Coq theorem C05_safe_coarse: in every history of register/resume, pause/exit, quiescent and retire calls by any number of '
             'threads (calls atomic, distinct blocks), every block is freed only when no thread registered at its request is still to pass a '
             'quiescent state; C05_immediate: a request is executed at once only when at most one thread is registered. The model is validated '
